@@ -348,11 +348,11 @@ PLANS["C20"] = dict(
           "reference; itoa/hexized: every n < 10^6, 10^k and 16^k +-1, usize::MAX, random widths, against std formatting. distinct_nontrivial = distinct "
           "(year mod 400, month, weekday) triples observed."),
     quick=[R("c20", "rel", 200_000), R("c20", "miri", 1, shards=4, flags={"small": 8})],
-    thorough=[R("c20", "rel", 2_000_000), R("c20", "dbg", 500_000), R("c20", "asan", 500_000), R("c20", "miri", 1, shards=16, flags={"small": 1})],
+    thorough=[R("c20", "rel", 2_000_000), R("c20", "dbg", 500_000), R("c20", "asan", 500_000), R("c20", "native", 500_000), R("c20", "miri", 1, shards=16, flags={"small": 1})],
     floors={"quick": {"evaluations": 6_000_000, "days_enumerated_in_shard": 2_932_897, "distinct": 30_000},
             "thorough": {"evaluations": 12_000_000, "days_enumerated_in_shard": 2_932_897 * 3, "distinct": 30_000}},
     assumptions=["reference: Hinnant civil_from_days written from the paper + weekday=(days+4) mod 7; std formatting for numbers",
-                 "64-bit usize", "Miri runs a strided subset (every 997th day, every 1201st second, n<3000)"],
+                 "64-bit usize", "thorough tier also runs a build with -C target-cpu=native (code behind cfg(target_feature) is compiled in); other target features are not built", "Miri runs a strided subset (every 997th day, every 1201st second, n<3000)"],
 )
 
 # ---------------------------------------------------------------------------------------------
@@ -362,7 +362,7 @@ NOT_CLAIMED = {}
 
 META["C20"] = dict(
     engine="vh c20",
-    technique="runtime monitoring: exhaustive enumeration of inputs to the real formatters against an independent reference; Miri on a strided subset; ASan/debug-assert builds in thorough",
+    technique="runtime monitoring: exhaustive enumeration of inputs to the real formatters against an independent reference; Miri on a strided subset; ASan/debug-assert builds and a -C target-cpu=native build in thorough",
     level_text=("Every day of the supported range and every n < 10^6 is executed through the real imf_fixdate/itoa/hexized and compared with an independent "
                 "reference, so a wrong table entry or digit is observed, not sampled; seconds-of-day are exhaustive on 24 special days and random elsewhere."),
     level_note="Trusts the reference (Hinnant civil_from_days, std formatting). Full 64-bit range of itoa/hexized is sampled, not enumerated.",
@@ -434,8 +434,8 @@ PLANS["C03"] = dict(
                  "rel/dbg run with the H3 capacity assertion (overrun -> panic); asan/miri run without it so that the tool sees the real out-of-bounds write"],
 )
 META["C03"] = dict(
-    engine="vh c03",
-    technique="runtime monitoring: model-based oracle over generated operation histories, real serializer output re-parsed by an independent HTTP parser; capacity assertion hook (H3); ASan/Miri without the assertion",
+    engine="vh c03 + vh c05tcp",
+    technique="runtime monitoring: model-based oracle over generated operation histories, real serializer output re-parsed by an independent HTTP parser; capacity assertion hook (H3); ASan/Miri without the assertion; the real session's send path observed over loopback TCP against the in-memory session",
     level_text=("Every generated history is executed against the real Response/Headers code and its bytes are checked for well-formedness, for the live header set with latest values, for "
                 "framing per status/method, and for written <= reserved bytes (assertion inside push_unchecked! and declared-size accessor)."),
     level_note="Trusts the response parser and the 20-line map model. Stream bodies are C17's. Histories are sampled, not enumerated.",
@@ -781,7 +781,7 @@ PLANS["C18"] = dict(
 )
 META["C18"] = dict(
     engine="vh c18 (+ vh c18child per scenario)",
-    technique="runtime monitoring: forced-interleaving execution of the real signal handler / accept-loop poll through scheduling-point hooks with a real SIGINT, offline checker over the recorded event log (ordering, lost-wake-up predicate, bounded progress); TSan build in thorough",
+    technique="runtime monitoring: forced-interleaving execution of the real signal handler / accept-loop poll through scheduling-point hooks with a real SIGINT (30 enumerated schedules, late-arrival, queued-session and final-wait windows), a waker for the accept-loop task that honours only the most recent poll, offline checker over the recorded event log (ordering, lost-wake-up predicate, bounded progress); TSan build in thorough",
     level_text=("All 30 (order, poll position) schedules are executed in the real code and the realised order is read back from the log; the lost-wake-up state is decided logically from counted "
                 "polls and wakes of the accept-loop task, not by waiting. Session scenarios check return-after-all-sessions on the same log."),
     level_note="Schedules inside each atomic operation are not explored; only rt_tokio; session scenarios are sampled and partly time-paced (verdicts use sequence numbers).",
